@@ -53,6 +53,10 @@ def strategy(tier):
         pol["cons_jac"] = draw(st.sampled_from(["fresh", "memo"] + (["const", "const"] if r.affine else ["memo"])))
         pol["lag_hess"] = draw(st.sampled_from(["fresh", "memo"] + (["const", "const"] if (r.affine and r.quadratic_obj) else ["memo"])))
         case["policy"] = pol
+        # the flow-integration solver evaluates the same callbacks through its own code path
+        if case["spec"]["n"] <= 3 and draw(st.integers(0, 5)) == 0:
+            case["solver"] = "integration"
+            case["iteration_limit"] = 30
         return case
 
     return _s()
@@ -73,6 +77,32 @@ def _arrays_of(params, problem, x0, y0):
     return {k: v for k, v in out.items() if isinstance(v, np.ndarray)}
 
 
+def _integration_run(problem, params, spec, case):
+    """IntegrationSolver run wrapped into the same outcome shape (digest over the result only)."""
+    import hashlib
+
+    from pygradflow.integration.integration_solver import IntegrationSolver
+    from vf import strategies as S
+    from vf.trace import RunOutcome, Timeout, alarm, exc_signature, result_bytes
+
+    out = RunOutcome()
+    try:
+        with alarm(20):
+            out.result = IntegrationSolver(problem, params).solve(S.x0_array(spec, case["start"]), S.y0_array(spec, case["start"]))
+    except Timeout:
+        raise
+    except Exception as e:  # the integration solver's own assertions are not C11's subject, but must be the same in both twins
+        out.exc = e
+        out.exc_sig = exc_signature(e)
+    h = hashlib.sha256()
+    if out.result is not None:
+        h.update(result_bytes(out.result))
+    else:
+        h.update(f"{type(out.exc).__name__}:{out.exc}".encode())
+    out.digest = h.hexdigest()
+    return out
+
+
 def check(case):
     spec = case["spec"]
     pol = case["policy"]
@@ -91,19 +121,35 @@ def check(case):
         owned = _arrays_of(params, rec, x0, y0)
         owned.update({f"inner.{k}": v for k, v in _arrays_of(params, inner, None, None).items() if k.startswith(("var_", "cons_"))})
         before = {k: (v.copy(), v.dtype) for k, v in owned.items()}
-        solver = make_tracing_solver(rec, params)
-        # objects handed out while the Solver was constructed (automatic scalings evaluate the
-        # callbacks at the scaling point) stay under observation: they are caller-owned as well
-        rec.clear()
-        out = run_solve(rec, params, x0, y0, solver=solver)
+        if case.get("solver") == "integration":
+            out = _integration_run(rec, params, spec, case)
+        else:
+            solver = make_tracing_solver(rec, params)
+            # objects handed out while the Solver was constructed (automatic scalings evaluate the
+            # callbacks at the scaling point) stay under observation: they are caller-owned as well
+            rec.clear()
+            out = run_solve(rec, params, x0, y0, solver=solver)
         changed = [k for k, v in owned.items() if not (v.dtype == before[k][1] and np.array_equal(v, before[k][0], equal_nan=True))]
         return out, rec, changed
 
+    from vf.trace import Timeout
+
+    if case.get("solver") == "integration":
+        labels.append("solver:integration")
     try:
         fresh, rec_f, changed_f = one_run({k: "fresh" for k in pol})
+    except Timeout:
+        from vf.runner import inconclusive
+
+        return inconclusive("integration_timeout", labels)
     except Exception as e:
         return excluded(f"build:{type(e).__name__}", labels)
-    cached, rec_c, changed_c = one_run(pol)
+    try:
+        cached, rec_c, changed_c = one_run(pol)
+    except Timeout:
+        from vf.runner import inconclusive
+
+        return inconclusive("integration_timeout", labels)
     sub = 2
     for which, rec, changed in (("fresh", rec_f, changed_f), ("cached", rec_c, changed_c)):
         if changed:
